@@ -13,6 +13,8 @@
  *                   (the per-zone range cache makes the order matter)
  * --opt mode=rule   case = zone: real TZID events (text -> parser -> stream)
  *                   DAILY / WEEKLY / MONTHLY around the transitions of 6 years
+ * --opt mode=rewrite case = zone: the events of mode=rule written out with the project's own writer (the form echsq
+ *                   sends and the form of echsd's checkpoint file), parsed again and read back against zoneinfo
  * --opt mode=cache  case = one access sequence over the 16-slot zone cache
  *                   (cyclic orders and hot-zone orders of 15..18 zones) or one
  *                   process that touches 63 / 64 / 65 distinct TZIDs
@@ -36,6 +38,7 @@
 #include "dt-strpf.h"
 #include "intern.h"
 #include "ref/icalio.h"
+#include "ref/c05_common.h"
 
 #if !defined TZDIR
 # define TZDIR	"/usr/share/zoneinfo"
@@ -888,6 +891,223 @@ enum_rule(void)
 	}
 }
 
+/* ============================================================= rewrite */
+/* A zoned event keeps its instants when it goes through the project's own iCalendar writer and is parsed again: that is
+ * what happens to every task on its way into the daemon (echsq add writes it with echs_task_icalify), in the daemon's
+ * checkpoint file and in `echse merge'.  The events are those of mode=rule, the expected instants are zoneinfo's for the
+ * stated wall-clock times (the same oracle lines); an event whose directly read stream already departs from them is
+ * mode=rule's to report and is left out here (counted). */
+static const char *const rwform[] = {"echsq", "echsd"};
+
+/* compare GOT[0..NGOT) with the expected occurrences; -1 all right, else the index of the first expected one that fails */
+static int
+rw_judge(const struct rev_s *r, const long *got, int ngot, int *gpos)
+{
+	int g = 0;
+	for (int j = 0; j < r->nex; j++) {
+		const struct exp_s *x = r->ex + j;
+		if (x->cls == 'o') {
+			if (g < ngot && got[g] == x->u[0]) {
+				g++;
+				continue;
+			}
+			*gpos = g;
+			return j;
+		} else if (g < ngot) {
+			int hit = 0, later = 0;
+			for (int a = 0; a < x->nu; a++) {
+				hit |= got[g] == x->u[a];
+			}
+			for (int jj = j + 1; jj < r->nex && !hit; jj++) {
+				for (int a = 0; a < r->ex[jj].nu; a++) {
+					later |= got[g] == r->ex[jj].u[a];
+				}
+			}
+			if (hit || !later) {
+				g++;
+			}
+		}
+	}
+	*gpos = g;
+	return -1;
+}
+
+static int
+rw_read(struct ev_s *ev, long *got, int max)
+{
+	int n = 0;
+	while (n < max) {
+		if (guarded(c_pop, ev)) {
+			return -1;
+		} else if (echs_nul_instant_p(ev->e.from)) {
+			break;
+		}
+		got[n++] = inst_epoch(ev->e.from);
+	}
+	return n;
+}
+
+static void
+rw_event(void *arg)
+{
+	const struct rev_s *r = arg;
+	static char text[1024], back[2][8192];
+	char lines[512], dts[24], sig[VD_SIGLEN], b1[24], b2[24], b3[24];
+	struct ev_s ev = {0};
+	long got[20];
+	ssize_t bn[2];
+	int ngot, g;
+
+	if (r->ex[0].cls != 'o') {
+		/* a DTSTART in a gap or fold: what the writer makes of it is not judged */
+		vd_count("rewrite_gap_or_fold_dtstart_unjudged", 1);
+		return;
+	}
+	snprintf(lines, sizeof(lines), "DTSTART;TZID=%s:%s\nRRULE:FREQ=%s;COUNT=%d\n", zname, tstr(dts, r->l0), r->freq, r->cnt);
+	ical_wrap(text, sizeof(text), "c07@verif", lines);
+	vd_desc("zone %s: DTSTART;TZID=%s:%s RRULE:FREQ=%s;COUNT=%d written with echs_task_icalify and parsed again", zname, zname, dts, r->freq, r->cnt);
+	ev.text = text;
+	if (guarded(c_parse, &ev) || ev.t == NULL || ev.t->strm == NULL) {
+		/* mode=rule reports that */
+		return;
+	}
+	for (int f = 0; f < 2; f++) {
+		bn[f] = c05_seria(back[f], sizeof(back[f]), &ev.t, 1, f);
+	}
+	ev.s = ev.t->strm;
+	ngot = rw_read(&ev, got, r->cnt + 2);
+	if (ngot < 0 || rw_judge(r, got, ngot, &g) >= 0 || ngot > g) {
+		vd_count("rewrite_direct_stream_already_off", 1);
+		return;
+	}
+	for (int f = 0; f < 2; f++) {
+		struct ev_s e2 = {0};
+		char dtline[120] = "";
+		int j;
+
+		vd_sh->evals++;
+		if (bn[f] <= 0) {
+			snprintf(sig, sizeof(sig), "rewrite/nothing-written/%s/%s", r->freq, rwform[f]);
+			vd_viol(sig, "the writer gave no text");
+			continue;
+		}
+		{
+			const char *q = strstr(back[f], "DTSTART");
+			if (q != NULL) {
+				snprintf(dtline, sizeof(dtline), "%.*s", (int)strcspn(q, "\r\n"), q);
+			}
+		}
+		e2.text = back[f];
+		if (guarded(c_parse, &e2)) {
+			snprintf(sig, sizeof(sig), "rewrite/hang-parse/%s/%s", r->freq, rwform[f]);
+			vd_viol(sig, "parsing the written text (%s) does not return", dtline);
+			continue;
+		} else if (e2.t == NULL || e2.t->strm == NULL) {
+			snprintf(sig, sizeof(sig), "rewrite/no-task/%s/%s", r->freq, rwform[f]);
+			vd_viol(sig, "the written text (%s) gives no task/stream", dtline);
+			continue;
+		}
+		e2.s = e2.t->strm;
+		ngot = rw_read(&e2, got, r->cnt + 2);
+		if (ngot < 0) {
+			snprintf(sig, sizeof(sig), "rewrite/hang-pop/%s/%s", r->freq, rwform[f]);
+			vd_viol(sig, "echs_evstrm_pop on the re-read event (%s) does not return", dtline);
+			continue;
+		}
+		if ((j = rw_judge(r, got, ngot, &g)) >= 0) {
+			const struct exp_s *x = r->ex + j;
+			const int span = x->l - x->u[0] != r->ex[0].l - r->ex[0].u[0];
+			if (g < ngot) {
+				snprintf(sig, sizeof(sig), "rewrite/wrong-utc/%s/%s/%s", r->freq, rwform[f],
+					 j == 0 ? "first" : span ? "other-offset-than-dtstart" : "same-offset-as-dtstart");
+				vd_viol(sig, "written as `%s' and parsed again: occurrence #%d (%s local): stream gives %sZ, zoneinfo says %sZ (offset %ld); read directly the event is right",
+					dtline, j + 1, tstr(b1, x->l), tstr(b2, got[g]), tstr(b3, x->u[0]), x->l - x->u[0]);
+			} else {
+				snprintf(sig, sizeof(sig), "rewrite/missing/%s/%s", r->freq, rwform[f]);
+				vd_viol(sig, "written as `%s' and parsed again: occurrence #%d (%s local = %sZ) missing: stream ended after %d; read directly the event is right",
+					dtline, j + 1, tstr(b1, x->l), tstr(b2, x->u[0]), ngot);
+			}
+		} else if (ngot > g) {
+			snprintf(sig, sizeof(sig), "rewrite/extra/%s/%s", r->freq, rwform[f]);
+			vd_viol(sig, "written as `%s' and parsed again: %d occurrences, %d expected (the first beyond is %sZ)", dtline, ngot, g, tstr(b1, got[g]));
+		}
+	}
+}
+
+static void
+rewrite_case(void *unused)
+{
+	long nev = 0;
+
+	(void)unused;
+	for (size_t i = 0; i < rl.n;) {
+		struct rev_s r;
+		int span = 0;
+		char b1[24], b2[24];
+
+		if (rl.l[i][0] != 'E') {
+			i++;
+			continue;
+		}
+		if (sscanf(rl.l[i], "E %15s %d %ld %d %7s %d", r.freq, &r.cnt, &r.l0, &r.k, r.kind, &r.ti) != 6) {
+			oracle_fail("bad line", rl.l[i]);
+		}
+		r.nex = 0;
+		for (i++; i < rl.n && rl.l[i][0] == 'O'; i++) {
+			char cls[8];
+			struct exp_s *x = r.ex + r.nex;
+			int n = 0, m;
+			const char *s = rl.l[i];
+			if (r.nex >= 16 || sscanf(s, "O %7s %ld%n", cls, &x->l, &n) < 2) {
+				oracle_fail("bad line", s);
+			}
+			x->cls = cls[0], x->nu = 0;
+			for (s += n; x->nu < 4 && sscanf(s, "%ld%n", &x->u[x->nu], &m) == 1; s += m, x->nu++);
+			r.nex++;
+		}
+		for (int j = 1; j < r.nex; j++) {
+			if (r.ex[j].cls == 'o' && r.ex[0].cls == 'o' && r.ex[j].l - r.ex[j].u[0] != r.ex[0].l - r.ex[0].u[0]) {
+				span = 1;
+			}
+		}
+		nev++;
+		/* non-trivial: the zone is off UTC at DTSTART (the written local time differs from the UTC one) or the offset changes inside */
+		if (span || (r.ex[0].cls == 'o' && r.ex[0].l != r.ex[0].u[0])) {
+			vd_nontrivial();
+		}
+		if (nev % 197 == 1) {
+			vd_sample("zone %s DTSTART;TZID=%s:%s RRULE:FREQ=%s;COUNT=%d written in both forms, parsed again, expecting %d occurrences, first %sZ%s",
+				  zname, zname, tstr(b2, r.l0), r.freq, r.cnt, r.nex, r.ex[0].cls == 'o' ? tstr(b1, r.ex[0].u[0]) : "(gap/fold) ",
+				  span ? ", UTC offset changes inside" : "");
+		}
+		run_forked(rw_event, &r);
+		if (!(nev & 0xf)) {
+			vd_beat();
+		}
+	}
+	vd_count("rewrite_events", nev);
+}
+
+static void
+enum_rewrite(void)
+{
+	load_zones();
+	for (size_t zi = 0; zi < nzones; zi++) {
+		char req[300];
+		if (!c07_next()) {
+			continue;
+		}
+		zname = znames[zi];
+		vd_shape("rewrite");
+		vd_desc("zone %s", zname);
+		snprintf(req, sizeof(req), "rule %s", zname);
+		free_lines(&rl);
+		rl = py_req(req);
+		vd_count("zones_rewrite", 1);
+		run_forked(rewrite_case, NULL);
+	}
+}
+
 /* =============================================================== cache */
 static const char *const cz_cand[] = {
 	"Pacific/Honolulu", "America/Anchorage", "America/Los_Angeles", "America/Denver", "America/Chicago",
@@ -1606,6 +1826,8 @@ enumerate(void)
 		enum_conv();
 	} else if (!strcmp(mode, "rule")) {
 		enum_rule();
+	} else if (!strcmp(mode, "rewrite")) {
+		enum_rewrite();
 	} else if (!strcmp(mode, "cache")) {
 		enum_cache();
 	} else if (!strcmp(mode, "byhour")) {
